@@ -54,6 +54,12 @@ func NewGsfaReader(indexRootDir string) (*GsfaReader, error) {
 		index.ll = ll
 	}
 	{
+		// NewManifest is create-or-open: never let a reader (re-)create the manifest.
+		if st, err := os.Stat(filepath.Join(indexRootDir, "manifest")); err != nil {
+			return nil, fmt.Errorf("error while opening manifest: %w", err)
+		} else if st.Size() == 0 {
+			return nil, fmt.Errorf("manifest is empty: %s", filepath.Join(indexRootDir, "manifest"))
+		}
 		man, err := manifest.NewManifest(filepath.Join(indexRootDir, "manifest"), indexmeta.Meta{})
 		if err != nil {
 			return nil, err
